@@ -98,4 +98,31 @@ def spec (fs : FS) (start stop : Dir) : Result :=
   | some d => .found d
   | none => .notFound
 
+/-! ## a RELATIVE start path
+
+`Find` takes any path.  With a relative `start` (components `rel` below the working directory `cwd`) and an absolute
+`stop`, `filepath.Rel(start, stop)` is an error, so `isAbove` is false, and `start == stop` never holds; the climb
+`filepath.Dir("d/d") = "d"`, `Dir("d") = "."`, `Dir(".") = "."` ends at the working directory. -/
+
+/-- the loop, on the reversed components of the relative start -/
+def findRelUp (fs : FS) (cwd : Dir) : List String → Result
+  | [] => if hasSpokfile (fs cwd) then .found cwd else .notFound          -- `.`: its own parent
+  | c :: up =>
+    let d := cwd ++ (c :: up).reverse
+    if hasSpokfile (fs d) then .found d else findRelUp fs cwd up
+
+def findRel (fs : FS) (cwd : Dir) (rel : List String) : Result := findRelUp fs cwd rel.reverse
+
+/-- the directories from `cwd/rel` up to `cwd`, nearest first -/
+def relUps (cwd : Dir) : List String → List Dir
+  | [] => [cwd]
+  | c :: up => (cwd ++ (c :: up).reverse) :: relUps cwd up
+
+/-- the specification for a relative start: the nearest directory between start and the working directory (both
+    included) that holds a regular file called `spokfile` -/
+def relSpec (fs : FS) (cwd : Dir) (rel : List String) : Result :=
+  match (relUps cwd rel.reverse).find? (fun d => hasSpokfile (fs d)) with
+  | some d => .found d
+  | none => .notFound
+
 end Spok.Find
